@@ -26,8 +26,8 @@ if [ "${1:-}" = "--replay" ]; then
     *) exec "$ST"/release/c09 --tier "$TIER" "$@";;
   esac
 fi
-rm -f /verif/.target/c09-sweep-evidence.json
-VERIF_EVIDENCE_PATH=/verif/.target/c09-sweep-evidence.json VERIF_REPLAY_TAG=sweep "$AT"/release/c09cfg --tier "$TIER"; rc1=$?
+rm -f "$AT"/c09-sweep-evidence.json
+VERIF_EVIDENCE_PATH="$AT"/c09-sweep-evidence.json VERIF_REPLAY_TAG=sweep "$AT"/release/c09cfg --tier "$TIER"; rc1=$?
 "$ST"/release/c09 --tier "$TIER"; rc2=$?
 cleanup_scratch
 if [ $rc1 -eq 2 ] || [ $rc2 -eq 2 ]; then exit 2; fi
